@@ -654,7 +654,8 @@ class SInt:
             k = -o
             if k & (k - 1) == 0:
                 return self - (self & (k - 1))
-            raise SymexUnsupported('& with negative mask %d at %s' % (o, _caller_site(1)))
+            # general two's complement identity  x & ~m == x - (x & m)  with m = ~o >= 0 (RTC.resetFlags: char & ~0xC0) (C15)
+            return self - (self & (-o - 1))
         if o == 0:
             return 0
         if self.lo is not None and self.lo >= 0 and self.hi is not None and (o + 1) & o == 0 and self.hi <= o:
@@ -790,7 +791,9 @@ class SInt:
         return format(engine().sample(self), spec)
 
     def __str__(self):
-        return SampledStr(str(engine().sample(self)))
+        # sampled text that still knows its integer (sx.snum.NumStr: isdigit()/int() of it are exact) — C18
+        from .snum import numstr
+        return numstr(self)
 
     def __repr__(self):
         if active():
@@ -882,7 +885,7 @@ def _bits_of(x, n):
 
 def _bitop2(a, b, op):
     for v in (a, b):
-        if v.lo is None or v.hi is None or v.lo < 0 or v.hi >= (1 << 32):
+        if v.lo is None or v.hi is None or v.lo < 0 or v.hi >= (1 << 40):  # 40: interval arithmetic of `a | const` overshoots 2**32 by the constant (C15)
             raise SymexUnsupported('bitwise %s of two symbolic values with unknown range at %s' % (op, _caller_site(2)))
     n = max(a.hi, b.hi).bit_length()
     ba, bb = _bits_of(a, n), _bits_of(b, n)
